@@ -61,7 +61,7 @@ func (exec *execCtx) assemble() {
 			}
 		} else {
 			ok := exec.writeCollectedHeader()
-			if ok && exec.overtakePayloadInReverse(children[len(children)-1]) {
+			if ok && exec.overtakePayloadInReverse(children[len(children)-1]) && exec.lastChildRange.GetLength() > 0 {
 				// payload of all children except the last are written, write last payload
 				exec.copyChild(exec.lastChildID, &exec.lastChildRange, false)
 			}
@@ -71,6 +71,11 @@ func (exec *execCtx) assemble() {
 			if ok := exec.overtakePayloadInReverse(*prev); ok {
 				var rng *object.Range
 				if exec.ctxRange() != nil {
+					if exec.lastChildRange.GetLength() == 0 {
+						// requested range ends before the last child: nothing
+						// to take from it, zero range would mean its full payload
+						return
+					}
 					rng = &exec.lastChildRange
 				}
 				// payload of all children except the last are written, write last payload
